@@ -1,5 +1,9 @@
 //! One driver per property (several share the lock-step walk).
 
+pub mod c10;
+pub mod c11;
+pub mod c16;
+pub mod c18;
 pub mod walkprops;
 
 use crate::Args;
@@ -7,6 +11,10 @@ use crate::Args;
 pub fn run(a: &Args) -> i32 {
     match a.prop.as_str() {
         "C01" | "C02" | "C03" | "C04" | "C05" | "C06" | "C12" | "C13" | "C19" => walkprops::run(a),
+        "C10" => c10::run(a),
+        "C11" => c11::run(a),
+        "C16" => c16::run(a),
+        "C18" => c18::run(a),
         other => {
             eprintln!("MACHINERY-ERROR: no check registered for {}", other);
             2
@@ -32,6 +40,10 @@ pub fn replay(file: &str) -> i32 {
     let prop = v["property"].as_str().unwrap_or("").to_string();
     match prop.as_str() {
         "C01" | "C02" | "C03" | "C04" | "C05" | "C06" | "C12" | "C13" | "C19" => walkprops::replay(&v),
+        "C10" => c10::replay(&v),
+        "C11" => c11::replay(&v),
+        "C16" => c16::replay(&v),
+        "C18" => c18::replay(&v),
         other => {
             eprintln!("MACHINERY-ERROR: no replay registered for {}", other);
             2
